@@ -267,7 +267,7 @@ func validateSample(spec HarnessSpec, smp PathSample, n int) (bool, string) {
 		if len(got) > 0 {
 			for k, n := range want {
 				if got[k] != n {
-					return false, fmt.Sprintf("native trace differs: %s ×%d natively, ×%d symbolically", k, got[k], n)
+					return false, fmt.Sprintf("native trace differs: %s ×%d natively, ×%d symbolically (model %v)", k, got[k], n, smp.Model)
 				}
 			}
 		}
